@@ -102,6 +102,12 @@ class BaseElementLocator
                        {
                            return address - diff;
                        });
+        if (from != to)
+        {
+            // resize() derives the new end of data from the slot behind the moved elements
+            element_addresses_[element_addresses_.size() - (from - to)] =
+                static_cast<std::size_t>(last_element_ - memory_begin) - diff;
+        }
     }
 
     void make_room_for_last_element_at(std::size_t index, std::size_t size_of_element, std::byte* memory_begin) noexcept
